@@ -1,7 +1,7 @@
 (* Correspondence obligations for C13: the model's per-thread results and parse counts on the
    (configuration, program, schedule) triples that the harness drove the real goroutines through. *)
 From Coq Require Import ZArith NArith Arith Bool List.
-From PcoreV Require Import Model.Base Model.Conc.
+From PcoreV Require Import Model.Base Model.Conc Model.ConcLazy.
 Import ListNotations.
 
 Definition val_eqb (a b : val) : bool :=
@@ -34,3 +34,27 @@ Definition conc_check (c : conc_case) : bool :=
 
 Definition conc_mismatches (cs : list conc_case) : list N := failing conc_check cs.
 
+
+(* ---- lazily cached inferred types: per thread the list of (creator of the object handed out, complete?) ------
+   The creator is None where the harness cannot observe object identity (the key index of a Hash). *)
+Definition lobs := list (option nat * bool).
+Definition lobs1_eqb (m : nat * bool) (o : option nat * bool) : bool :=
+  Bool.eqb (snd m) (snd o) && match fst o with None => true | Some b => Nat.eqb (fst m) b end.
+Fixpoint lobs_eqb (m : list (nat * bool)) (o : lobs) : bool :=
+  match m, o with
+  | [], [] => true
+  | x :: m', y :: o' => lobs1_eqb x y && lobs_eqb m' o'
+  | _, _ => false
+  end.
+(* per cell: does the code of that kind of cache publish the object before it is complete? *)
+Definition lazy_case := (list bool * lprog * sched * list lobs)%type.
+Fixpoint lazy_threads (log : list lev) (t : nat) (os : list lobs) : bool :=
+  match os with
+  | [] => true
+  | o :: os' => lobs_eqb (lresults_of t log) o && lazy_threads log (S t) os'
+  end.
+Definition lazy_check (c : lazy_case) : bool :=
+  let '(pfs, p, s, o) := c in
+  let st := lexec (fun c => nth c pfs false) p s in
+  lall_done st (length p) && Nat.eqb (length o) (length p) && lazy_threads (ls_log st) 0 o.
+Definition lazy_mismatches (cs : list lazy_case) : list N := failing lazy_check cs.
